@@ -443,6 +443,19 @@ class Extractor(object):
                               'locals': SymSet('TOP.locals'), 'globals': SymSet('TOP.globals'),
                               'top': top, 'parent': Unknown('builtin_scope')})
             curscope = Obj(facts.classes['Scope'], {}, 'CURSCOPE')
+            # the per-scope name sets are whatever supp's own Scope.__init__ creates (locals, globals, nonlocals, ...)
+            sinit = facts.classes['Scope'].lookup('__init__')
+            if sinit is None:
+                raise AnalysisError('Scope.__init__ vanished')
+            # (the enclosing scope handed to the constructor is itself a freshly constructed scope: a constructor that reads its
+            # parent's tables is interpreted on real, empty ones; what it copies is decided by the lookup scenarios of C05)
+            pstub = Obj(facts.classes['Scope'], {}, 'PARENTSCOPE')
+            it.call(FuncVal(sinit.rel, sinit.node, None, pstub, sinit.cls), [None, top], {})
+            it.call(FuncVal(sinit.rel, sinit.node, None, curscope, sinit.cls), [pstub, top], {})
+            for holder, label in ((top, 'TOP'), (curscope, 'CURSCOPE')):
+                for k, v in list(holder.attrs.items()):
+                    if isinstance(v, (set, frozenset)):
+                        holder.attrs[k] = SymSet('%s.%s' % (label, k))
             cur = Obj(facts.classes['Flow'], {'hint': 'CUR', 'scope': curscope, '_names': [], 'parents': []}, 'CUR')
             curscope.attrs.update({'parent': Unknown('CURSCOPE.parent'), 'top': top,
                                    'locals': SymSet('CURSCOPE.locals'), 'globals': SymSet('CURSCOPE.globals'),
